@@ -371,4 +371,4 @@ def main(ctx):
 def replay(ctx, path):
     hcmd, dcmd = build(ctx)
     vlib.lake_build(["drv_c16"])
-    return vlib.replay_file(ctx, path, hcmd, dcmd, judge=judge)
+    return vlib.replay_file(ctx, path, hcmd, dcmd, judge=judge, repeat=10)
